@@ -1,6 +1,7 @@
 import Lean.Data.Json
 import Bardic.Parser.Components
 import Bardic.Parser.Content
+import Bardic.Parser.Choice
 import Bardic.Driver.Load
 /-!
 # Driver: `pcomp` cases — one parser component on one input
@@ -78,6 +79,14 @@ def runPcomp (j : Json) : Json :=
        | .diag (.split .unclosed) => Json.mkObj [("diag", "unclosed")]
        | .diag (.split .unmatchedClose) => Json.mkObj [("diag", "unmatched")]
        | .outOfFuel => Json.mkObj [("internal", "fuel")])
+    | "validate_choice_syntax" =>
+      (match validateChoice s with
+       | .ok none => .null
+       | .ok (some d) => Json.mkObj [("diag", .str (match d with
+           | .missingArrow => "Missing arrow" | .missingOpen => "Missing opening bracket" | .missingClose => "Missing closing bracket"
+           | .unclosedCond => "Unclosed conditional" | .strayClose => "without matching" | .closeBeforeOpen => "appears before"
+           | .missingTarget => "Missing target" | .targetSpaces => "contains spaces" | .emptyText => "Empty choice text"))]
+       | .error e => internalJson e)
     | "parse_tags" =>
       let (l, tags) := parseTags s
       Json.arr #[jStr l, jLines tags]
